@@ -115,6 +115,12 @@ pub fn generated_seeds(thorough: bool) -> Vec<Seed> {
     for (attr, item) in [("Clone, Deref", "struct X(u8, u8);"), ("Default, Clone", "enum X { A, B }"), ("Clone, Debug", "struct X(#[debug(transparent)] u8, #[debug(transparent)] u8);"), ("Ord, PartialOrd, Eq, PartialEq", "struct X(#[partial_ord(reverse)] u8);"), ("Clone, Add", "enum X { A(u8), B }"), ("Debug, Deref, Clone", "enum X { A(u8) }"), ("Neg, PartialEq", "enum X { A, B }")] {
         v.push(seed("gen:failing-sibling", attr, item));
     }
+    // user impls whose header has anonymous lifetimes (in the self type, in Rhs, in both, nested references)
+    for (attr, item) in [("Sub, SubAssign", "impl ::core::ops::Sub<W<'_>> for W<'_> { type Output = u32; fn sub(self, r: W<'_>) -> u32 { self.1 + r.1 } }"), ("Sub", "impl ::core::ops::SubAssign<&'_ u32> for W<'_> { fn sub_assign(&mut self, r: &u32) { self.1 += *r; } }"), ("Add", "impl ::core::ops::Add<G<&u8>> for G<fn(&'_ u8) -> &'_ u8> { type Output = u8; fn add(self, r: G<&u8>) -> u8 { *(self.0)(r.0) } }"), ("Shl, ShlAssign", "impl<T: Clone> ::core::ops::Shl<u8> for &W2<'_, T> where Self: Weight { type Output = u8; fn shl(self, r: u8) -> u8 { r } }")] {
+        let mut sd = seed("gen:impl-anonymous-lifetimes", attr, item);
+        sd.is_impl = true;
+        v.push(sd);
+    }
     // macro_rules! fragments inside field types (`__FRAG(..)` = the tokens inside an invisible group)
     v.push(seed("gen:fragment-in-field-type", "Clone, Debug, PartialEq", "struct X<T>([T; __FRAG(1 + 2) * 2], &'static __FRAG(dyn ::core::fmt::Debug + Send));"));
     v.push(seed("gen:fragment-in-field-type", "Clone, Hash", "enum X<T> { A, B { q0: [T; __FRAG(1 + 2) as usize], _q0: *const __FRAG(dyn ::core::fmt::Debug + 'static) } }"));
